@@ -21,7 +21,7 @@ func envInt(name string, def int) int {
 func TestMain(m *testing.M) {
 	// GOMAXPROCS is an input of the code under test (the Processor clamps its
 	// thread count to it); pin it so that a run is a function of the seed only.
-	runtime.GOMAXPROCS(envInt("VERIF_GOMAXPROCS", 4))
+	runtime.GOMAXPROCS(envInt("VERIF_GOMAXPROCS", 8))
 	code := m.Run()
 	cleanupScratch()
 	os.Exit(code)
